@@ -335,7 +335,8 @@ def reference(case: dict, phase: str = "all") -> dict:
                 try:
                     val = G.den(d["e"], rho)
                 except G.Undefined as u:
-                    return {"v": "undefined", "why": f"{it['name']}: {u.kind} {u.detail}", "kind": u.kind}
+                    return {"v": "undefined", "why": f"{it['name']}: {u.kind} {u.detail}", "kind": u.kind, "name": it["name"], "missing": u.detail,
+                            "bound": sorted(rho)}
                 except G.TooBig:
                     return {"v": "unknown", "why": "an intermediate value is beyond the resource bound of the reference", "kind": "TooBig"}
                 if val != size:
